@@ -120,6 +120,8 @@ class DULServiceProvider(threading.Thread):
             self.event.append(fsm.Events.EVT_5)
 
         self.dul_socket = dul_socket
+        # provider acts as association requestor, when it has to open connection itself
+        self.requestor = 0 if dul_socket else 1
         self.raw_pdu = b''
 
         self.is_killed = False
